@@ -75,6 +75,8 @@ class Mon:
         self.cross_partial = False  # some nest with >= 2 real loops crosses a partial boundary
         self.max_partial_depth = 0
         self.max_copy_depth = 0
+        self.extend_depth: dict[int, int] = {}
+        self.max_extend_depth = 0  # nested extend() activations on one context
         self.max_engine_stack = 0  # Python frames that are not the monitor's, at the deepest partial
         self.loop_over: dict[str, Any] | None = None  # first body execution beyond the loop limit
         # output
@@ -470,6 +472,28 @@ def install() -> None:
                 m.max_copy_depth = d
         return c
 
+    from contextlib import contextmanager
+
+    o_extend = RC.extend
+
+    @contextmanager
+    def rc_extend(self, namespace, template=None):  # noqa: ANN001
+        with o_extend(self, namespace, template) as c:
+            m = MON
+            if m is None:
+                yield c
+                return
+            k = id(self)
+            d = m.extend_depth.get(k, 0) + 1
+            m.extend_depth[k] = d
+            if d > m.max_extend_depth:
+                m.max_extend_depth = d
+            try:
+                yield c
+            finally:
+                m.extend_depth[k] = d - 1
+
+    RC.extend = rc_extend
     RC.__init__ = rc_init
     RC.assign = rc_assign
     RC.get_output_buffer = rc_gob
